@@ -155,7 +155,7 @@ def call_model(fn):
 
 
 # ------------------------------------------------------------------ TLC side
-def tlc_programs(ctx, exhaustive_cfg, sim_cfg=None, sim_num=0, sim_depth=14):
+def tlc_programs(ctx, exhaustive_cfg, sim_cfg=None, sim_num=0, sim_depth=14, cap_per_cfg=120000):
     """returns list of 'done' states of Script.tla (dicts) from an exhaustive run plus simulation"""
     import json
 
@@ -166,10 +166,19 @@ def tlc_programs(ctx, exhaustive_cfg, sim_cfg=None, sim_num=0, sim_depth=14):
         ctx.tlc(res, cfg)
         if not res.ok:
             raise core.MachineryError(f"TLC reports {res.violated} on {cfg}:\n{res.out[-2000:]}")
-        for pr in res.printed:
-            if pr and pr[0] == "CASE" and pr[1] not in seen_ex:
-                seen_ex.add(pr[1])
-                states.append(_norm(json.loads(pr[1])))
+        lines = [pr[1] for pr in res.printed if pr and pr[0] == "CASE"]
+        res.out = ""
+        res.printed = []
+        if len(lines) > cap_per_cfg:
+            # bounded memory: a seeded sample of a very large exhaustive space (recorded in the evidence)
+            import random as _r
+            ctx.set("sampled_from_" + cfg, len(lines))
+            lines = _r.Random(ctx.seed).sample(lines, cap_per_cfg)
+        for ln in lines:
+            h = hash(ln)
+            if h not in seen_ex:
+                seen_ex.add(h)
+                states.append(_norm(json.loads(ln)))
     if sim_cfg and sim_num:
         d = core.scratch_sub("sim")
         per = max(1, sim_num // core.NCPU)
